@@ -25,6 +25,33 @@ def of_text(text):
 def of_fn(f, fn):
     return of_text(f.src[f.toks[fn.i_fn].a:f.toks[fn.i_bc].b])
 
+def skeleton(f, fn):
+    """statement skeleton of a function body: kinds of statements and their nesting, no names, no expressions. An in-place edit (another operator,
+    constant, variable, condition) keeps it; restructuring (a new statement, a match turned into an if, a loop reshaped) changes it."""
+    from .rustsrc import parse_block
+    def sk(stmts, top=False):
+        out = []
+        for n, st in enumerate(stmts):
+            kind = st.kind
+            if top and n == len(stmts) - 1 and kind == 'return': kind = 'expr'      # `return x;` in tail position is the tail expression `x`
+            if kind == 'assign': kind = 'expr'
+            subs = [(role if role != 'closure' else 'c', sk(sub)) for (role, _, _, sub) in st.blocks]
+            arms = []
+            for a in st.arms:
+                blk = a[4] if len(a) > 4 else None
+                arms.append(sk(blk) if isinstance(blk, list) else 'e')
+            out.append([kind, subs, arms])
+        return out
+    return json.dumps(sk(parse_block(f.toks, fn.i_bo, fn.i_bc), True), separators=(',', ':'))
+
+_SK = None
+def load_skeletons():
+    global _SK
+    if _SK is None:
+        p = os.path.join(VERIF, 'contracts', 'skeletons.json')
+        _SK = json.load(open(p)) if os.path.exists(p) else {}
+    return _SK
+
 def load():
     p = os.path.join(VERIF, 'contracts', 'constructs.json')
     return json.load(open(p)) if os.path.exists(p) else {}
@@ -34,10 +61,12 @@ if __name__ == '__main__':
     import importlib
     from vx.unit import generate
     from vx import expected
-    out = {}
+    out = {}; sk = {}
     src = sys.argv[1] if len(sys.argv) > 1 else '/repo/src'
     for u in expected.UNITS:
         g = generate(importlib.import_module('contracts.' + u).UNIT, src)
         out[u] = g.constructs
+        sk.setdefault(u, {}).update(g.skeletons)
     json.dump(out, open(os.path.join(VERIF, 'contracts', 'constructs.json'), 'w'), indent=1, sort_keys=True)
+    json.dump(sk, open(os.path.join(VERIF, 'contracts', 'skeletons.json'), 'w'), indent=0, sort_keys=True)
     print({k: len(v) for k, v in out.items()})
